@@ -3,7 +3,9 @@ plus the property oracle (numpy complex128 arithmetic on the decoded operands) e
 
 EXACT tier: small Gaussian integers (float64/float32 arithmetic is exact), model over Int, compared exactly.
 TOLERANCE tier: Float model for division / inverse / abs / norm / sigmoid (and a sample of the ring operations).
-MALFORMED stream: shape mismatches, wrong ranks, aliasing `out=` buffers: error KINDS compared exactly.
+MALFORMED stream: shape mismatches, wrong ranks, non-complex operands, aliasing `out=` buffers: compared as REJECTED / ACCEPTED only (the
+property says "rejects ... with an error": which exception type is raised is not constrained; the kinds are informational counters
+`error[fn]=K`, and the kind-level theorems bind the model only).
 
 Round-2 dimensions (orthogonal to the above, applied with some probability to every case):
 LAYOUT   every operand and every `out=` buffer may be a non-contiguous VIEW with the same logical values (permuted axes,
@@ -53,7 +55,7 @@ RULE = ("case = (function, operand shapes incl. the leading complex axis, operan
         "comparison), EDGE of the double range for the same functions (components in [MAX/4, MAX] incl. DBL_MAX, in [MIN, 4 MIN] incl. the smallest "
         "normal number, sub-normal operands, the decades 1e+-(300..308); divisors with equal / one negligible / one zero component; quotients of "
         "order one, within a factor 4 of overflow (|q| in [MAX/4, MAX/2]) and of underflow; numerator at the edge over an ordinary divisor; sigmoid "
-        "with Re z in [-746, -690]; expected value by exact rational arithmetic, results compared relative to their own size down to 1e-310). Einsum equations: explicit, implicit-output and ellipsis forms. non-trivial iff every complex operand has an entry with non-zero real AND imaginary part (so a sign or "
+        "with Re z in [-746, -690]; expected value by exact rational arithmetic, results compared relative to their own size down to 1e-310). Einsum equations: explicit, implicit-output and ellipsis forms. Call forms (per-case fseed): einsum real_part / imag_part as every kind of flag object (True/False, 1/0, numpy.bool_, numpy comparison result, 0-dim bool array / tensor), positionally or by keyword in either order or left to the default; out= positionally / by keyword / omitted; make_complex and sigmoid with the second operand by keyword or omitted (y=None). cplx.I as operand of every function that takes a complex scalar. Result dtypes are NOT compared (only: an accepted out= buffer keeps its dtype); exception types are NOT compared (rejected / accepted only). non-trivial iff every complex operand has an entry with non-zero real AND imaginary part (so a sign or "
         "conjugation error changes the result) and the call is not a pure error case; distinct by hash of the whole case")
 THEOREMS = {
     "make_complex": "C15_make_complex, C15_make_complex_none, C15_rejects_make_complex",
@@ -974,7 +976,7 @@ def _run_impl(case):
             else:
                 extra["out_noncontig"] = not it["view"].is_contiguous()
         return res, extra
-    except Exception as e:  # the error KIND is an observable of the property
+    except Exception as e:  # rejected; the KIND is kept for the counters only (the property constrains rejected / accepted, not the type)
         return {"error": type(e).__name__}, extra
 
 
@@ -1134,7 +1136,7 @@ EXTREME = ("extreme_large", "extreme_small", "extreme_mixed", "overflow_right")
 
 
 def sig_of(case, fn, what):
-    """stable signature; the EXTREME regimes (audit item C15-1 / finding F17) get one signature per function"""
+    """stable signature; the EXTREME regimes (audit item C15-1 / finding F17, fixed in /repo by 7038bfb) get one signature per function"""
     if case.get("regime") in EXTREME:
         return f"{fn}/extreme-range"
     if case.get("regime") in EDGE:
